@@ -322,7 +322,6 @@ package openapiv3
 // ---- flattened discriminated oneofs: the variant schemas that are referenced are the ones that are registered (C18) ----
 // each variant's oneOf entry refers to <Message>_<discriminator value>, which is the key registered just before it
 //@ func (g *Generator) buildFlattenedVariantSchemas(message *protogen.Message, info *annotations.OneofDiscriminatorInfo, msgName string, oneofFields map[string]bool) (r []*base.SchemaProxy)
-//@   requires info != nil && message != nil
 //@   modifies *
 //@   at-call CreateSchemaProxyRef requires refers_to_the_variant_key: arg0 == "#/components/schemas/" + spec.variantSchemaKey(msgName, variant.DiscriminatorVal)
 //@   at-call Set requires keyed: arg0 == arg0
@@ -332,7 +331,6 @@ package openapiv3
 
 // the discriminator mapping sends each value to the same key
 //@ func (g *Generator) buildFlattenedDiscriminator(info *annotations.OneofDiscriminatorInfo, msgName string) (r *base.Discriminator)
-//@   requires info != nil
 //@   modifies *
 //@   at-call Set requires maps_to_the_variant_key: arg0 == variant.DiscriminatorVal && arg1 == "#/components/schemas/" + spec.variantSchemaKey(msgName, variant.DiscriminatorVal)
 //@   loop 1 invariant count("Set") == old(count("Set")) + _i1
